@@ -119,6 +119,9 @@ class S3Compatible(Backend, short_name='S3C'):
         self.host = host
         self.scheme = scheme
         self.url = f'{scheme}://' + self.host
+        # HTTPX lower-cases the host and drops the default port, and that's
+        # what the Host header (and therefore the signature) must contain
+        self._host_header = httpx.URL(self.url).netloc.decode('ascii')
         self._client = httpx.AsyncClient(
             timeout=None, event_hooks={'response': [_raise_for_status_hook]}
         )
@@ -152,7 +155,7 @@ class S3Compatible(Backend, short_name='S3C'):
         date = f'{now:%Y%m%d}'
 
         canonical_headers = {
-            'host': self.host,
+            'host': self._host_header,
             'x-amz-content-sha256': payload_digest,
             'x-amz-date': x_amz_date,
         }
